@@ -63,6 +63,9 @@ type c03clock struct{}
 
 func (c03clock) Epoch() uint64 { return 0 }
 func (c03clock) Now() time.Time {
+	if v.Native() {
+		return time.Now()
+	}
 	t := c03next("clk.now")
 	if c03.nnow < len(c03.now) {
 		c03.now[c03.nnow] = t
@@ -82,7 +85,7 @@ func c03ListenPacket(lc *net.ListenConfig, ctx context.Context, network, address
 	}
 	return &net.UDPConn{}, nil
 }
-func c03Close(c *net.UDPConn) error                       { return nil }
+func c03Close(c *net.UDPConn) error                        { return nil }
 func c03SetDeadline(c *net.UDPConn, t time.Time) error     { return nil }
 func c03EnableTimestamping(c *net.UDPConn, s string) error { return nil }
 func c03SetDSCP(c *net.UDPConn, d uint8) error             { return nil }
@@ -164,6 +167,10 @@ func c03Exchange(interleavedMode bool) {
 	c03setup(48)
 	cl := &IPClient{Log: slog.New(slog.DiscardHandler), InterleavedMode: interleavedMode}
 	remote := c03addr("remote")
+	if v.Native() {
+		c03Native(cl, remote)
+		return
+	}
 	rip := remote.Addr().As4()
 	remoteUDP := &net.UDPAddr{IP: net.IP(rip[:]), Port: int(remote.Port())}
 	local := &net.UDPAddr{IP: net.IP{127, 0, 0, 1}}
@@ -270,4 +277,132 @@ func VerifC03Formula() {
 	v.Assert(2*e <= rtd+1, "C03.formula.offset-within-half-the-round-trip-delay")
 	v.Assert(ntp.ValidateResponseTimestamps(t0, t1, t2, t3) == nil, "C03.formula.conformant-exchange-validates")
 	v.Reach("C03.formula")
+}
+
+// ---- native replay through real loopback sockets (see DESIGN 10): the symbolic counterexample's
+// datagrams are sent by a scripted peer; for the offset property a conformant server whose clock is
+// ahead by a known theta answers, and the property itself is evaluated on the real client
+
+const c03theta = 2500 * time.Millisecond
+
+func c03acceptable(b []byte, fromServer bool, req *ntp.Packet) bool {
+	var p ntp.Packet
+	if !fromServer || ntp.DecodePacket(&p, b) != nil {
+		return false
+	}
+	reqInter := req.ReceiveTime != (ntp.Time64{}) || req.OriginTime != (ntp.Time64{})
+	if !(p.OriginTime == req.TransmitTime || reqInter && p.OriginTime == req.ReceiveTime) {
+		return false
+	}
+	if p.Mode() != ntp.ModeServer || (p.Version() != 3 && p.Version() != 4) || p.LeapIndicator() == 3 || p.Stratum < 1 || p.Stratum > 15 {
+		return false
+	}
+	now := time.Now()
+	return !ntp.TimeFromTime64(p.TransmitTime, now).Before(ntp.TimeFromTime64(p.ReceiveTime, now))
+}
+
+func c03Native(cl *IPClient, remote netip.AddrPort) {
+	attack := len(v.Obligation()) >= 3 && v.Obligation()[:3] == "C05"
+	a4 := remote.Addr().As4()
+	srv, err := net.ListenUDP("udp", &net.UDPAddr{IP: net.IP(a4[:]), Port: int(remote.Port())})
+	if err != nil {
+		panic(v.AssumeViolated{Where: "cannot bind the server address natively: " + err.Error()})
+	}
+	defer srv.Close()
+	var lastReq ntp.Packet
+	anyAcceptable := false
+	// the request of the symbolic run carried the stamp of the counterexample's first clock reading
+	cexTx := ntp.Time64FromTime(v.TimeNs(v.Int64("clk.now")))
+	var prevRx, prevTx ntp.Time64
+	go func() {
+		buf := make([]byte, 2048)
+		for {
+			n, from, err := srv.ReadFromUDP(buf)
+			if err != nil {
+				return
+			}
+			rx := time.Now().Add(c03theta)
+			var req ntp.Packet
+			if ntp.DecodePacket(&req, buf[:n]) != nil {
+				continue
+			}
+			lastReq = req
+			if attack {
+				// the counterexample's datagrams, with echoed stamps renamed to the actual request's
+				for i := range c03.dg {
+					d := &c03.dg[i]
+					out := append([]byte(nil), d.data[:d.n]...)
+					var dp ntp.Packet
+					if ntp.DecodePacket(&dp, out) == nil && dp.OriginTime == cexTx {
+						// rename the echoed stamp to the one the real request carries
+						dp.OriginTime = req.TransmitTime
+						hdr := out[:0:0]
+						ntp.EncodePacket(&hdr, &dp)
+						copy(out, hdr)
+					}
+					fromServer := d.src.Addr() == remote.Addr()
+					if fromServer {
+						if c03acceptable(out, true, &req) {
+							anyAcceptable = true
+						}
+						srv.WriteToUDP(out, from)
+					} else {
+						s4 := d.src.Addr().As4()
+						alt, err := net.ListenUDP("udp", &net.UDPAddr{IP: net.IP(s4[:])})
+						if err == nil {
+							alt.WriteToUDP(out, from)
+							alt.Close()
+						}
+					}
+					time.Sleep(20 * time.Millisecond)
+				}
+				continue
+			}
+			// conformant server, basic and interleaved mode
+			var resp ntp.Packet
+			resp.SetVersion(4)
+			resp.SetMode(ntp.ModeServer)
+			resp.Stratum = 1
+			resp.ReceiveTime = ntp.Time64FromTime(rx)
+			if req.ReceiveTime != req.TransmitTime && req.OriginTime == prevRx && prevRx != (ntp.Time64{}) {
+				resp.OriginTime = req.ReceiveTime
+				resp.TransmitTime = prevTx
+			} else {
+				resp.OriginTime = req.TransmitTime
+				resp.TransmitTime = ntp.Time64FromTime(time.Now().Add(c03theta))
+			}
+			var out []byte
+			ntp.EncodePacket(&out, &resp)
+			tx := time.Now().Add(c03theta)
+			srv.WriteToUDP(out, from)
+			prevRx, prevTx = resp.ReceiveTime, ntp.Time64FromTime(tx)
+		}
+	}()
+	local := &net.UDPAddr{IP: net.IP{127, 0, 0, 1}}
+	remoteUDP := &net.UDPAddr{IP: net.IP(a4[:]), Port: int(remote.Port())}
+	rounds := 4
+	if attack {
+		rounds = 1
+	}
+	for r := 0; r < rounds; r++ {
+		ctx, cancel := context.WithTimeout(context.Background(), 500*time.Millisecond)
+		_, off, err := cl.measureClockOffsetIP(ctx, ipMetrics.Load(), local, remoteUDP)
+		cancel()
+		if attack {
+			if err == nil {
+				_ = lastReq
+				v.Assert(anyAcceptable, v.Obligation())
+			}
+		} else if err == nil {
+			d := off - c03theta
+			if d < 0 {
+				d = -d
+			}
+			// loopback round trips are far below 20 ms
+			v.Assert(d <= 20*time.Millisecond, v.Obligation())
+		} else {
+			v.Assert(false, v.Obligation())
+		}
+		time.Sleep(10 * time.Millisecond)
+	}
 }
